@@ -113,6 +113,10 @@ DoCtorLike(S, a) == LET ox == S.objs[a.x]  ot == S.objs[a.t]
                         qs == ConvAll(ox.codes, ox.fmt, ot.fmt, ot.cfg)
                         st == OrSt(FoldQ(qs), [o |-> FALSE, u |-> FALSE, i |-> ox.st.i])
                     IN Put(Forget(S, a.y), a.y, [fmt |-> ot.fmt, codes |-> CodesOf(qs), cfg |-> ot.cfg, st |-> st])
+\* y = Fxp(values, like=t)  /  Fxp.template = t; y = Fxp(values): the template's format and a COPY of its Config, fresh status
+DoNewLike(S, a) == LET ot == S.objs[a.t]
+                       qs == [j \in DOMAIN a.ks |-> Q(a.ks[j], ot.fmt, ot.cfg)]
+                   IN Put(Forget(S, a.y), a.y, [fmt |-> ot.fmt, codes |-> CodesOf(qs), cfg |-> ot.cfg, st |-> FoldQ(qs)])
 \* y = x.like(t): a deep copy of the template (status included) that then stores x's value
 DoLike(S, a) == LET ox == S.objs[a.x]  ot == S.objs[a.t]
                     qs == ConvAll(ox.codes, ox.fmt, ot.fmt, ot.cfg)
@@ -186,6 +190,7 @@ Step(S, a) == CASE a.act = "New" -> DoNew(S, a)           [] a.act = "Store" -> 
                 [] a.act = "SetItem" -> DoSetItem(S, a)   [] a.act = "GetItem" -> DoGetItem(S, a)
                 [] a.act = "SetItemFxp" -> DoSetItemFxp(S, a)
                 [] a.act = "CtorLike" -> DoCtorLike(S, a) [] a.act = "Like" -> DoLike(S, a)
+                [] a.act = "NewLike" -> DoNewLike(S, a)
                 [] a.act = "LikeShallow" -> DoLikeShallow(S, a)
                 [] a.act = "CopyShallow" -> DoCopyShallow(S, a) [] a.act = "DeepCopy" -> DoDeepCopy(S, a)
                 [] a.act = "Resize" -> DoResize(S, a)     [] a.act = "Assign" -> DoAssign(S, a)
@@ -225,6 +230,8 @@ Enabled(S) ==
                                         \cup { [act |-> "GetItem", y |-> y, x |-> x, j |-> 0, sel |-> sl] : y \in { z \in Obj : Free(S, z) }, sl \in {"rev", "all"} } :
           x \in { z \in Live(S) : LenOf(S, z) = 2 } } ELSE {},
      IF "CtorLike" \in Acts THEN { r \in { [act |-> "CtorLike", y |-> y, x |-> x, t |-> t] : y \in { z \in Obj : Free(S, z) }, x \in Live(S), t \in Live(S) } : r.x # r.t } ELSE {},
+     IF "NewLike" \in Acts THEN UNION { { [act |-> "NewLike", y |-> y, t |-> t, via |-> v, ks |-> <<k1, k2>>] :
+          y \in { z \in Obj : Free(S, z) }, v \in {"like", "template"}, k1 \in Grid(S.objs[t].fmt), k2 \in {4} } : t \in Live(S) } ELSE {},
      IF "Like" \in Acts THEN { r \in { [act |-> "Like", y |-> y, x |-> x, t |-> t] : y \in { z \in Obj : Free(S, z) }, x \in Live(S), t \in Live(S) } : r.x # r.t } ELSE {},
      IF "LikeShallow" \in Acts THEN { r \in { [act |-> "LikeShallow", y |-> y, x |-> x, t |-> t] : y \in { z \in Obj : Free(S, z) }, x \in Live(S), t \in Live(S) } : r.x # r.t } ELSE {},
      IF "CopyShallow" \in Acts THEN { [act |-> "CopyShallow", y |-> y, x |-> x] : y \in { z \in Obj : Free(S, z) }, x \in Live(S) } ELSE {},
@@ -275,7 +282,7 @@ ViewsOnly == \A b \in st.mem : \A e1 \in b, e2 \in b : st.objs[e1[1]].codes[e1[2
 \* C20 (behavioural): a step changes what OTHER objects show only through shared memory of an indexed write
 Target(l) == IF l.act \in {"New", "Store", "SetItem", "SetItemFxp", "Resize", "Reset", "SetCfg", "SetCfgBad", "Assign", "Drop"} THEN l.x
              ELSE IF l.act = "BinOpOut" THEN l.z
-             ELSE IF l.act \in {"GetItem", "CtorLike", "Like", "LikeShallow", "CopyShallow", "DeepCopy", "RShiftKeep", "LShiftKeep", "Invert"} THEN l.y
+             ELSE IF l.act \in {"GetItem", "CtorLike", "NewLike", "Like", "LikeShallow", "CopyShallow", "DeepCopy", "RShiftKeep", "LShiftKeep", "Invert"} THEN l.y
              ELSE IF l.act \in {"BinOp", "Neg"} THEN l.z ELSE NULL
 NonInterference == [][ \A p \in Obj : (p # Target(last') /\ st.objs[p] # NULL /\ st'.objs[p] # st.objs[p])
                           => (last'.act = "SetItem" /\ \E b \in st.mem : <<last'.x, last'.j>> \in b /\ \E k \in DOMAIN st.objs[p].codes : <<p, k>> \in b) ]_vars
@@ -286,7 +293,7 @@ ViewWriteThrough == [][ (last'.act = "SetItem") =>
 \* C20: an invalid configuration value changes nothing
 BadConfigRejected == [][ last'.act = "SetCfgBad" => st' = st ]_vars
 \* C04: flags are sticky until reset()
-Creates(l) == l.act \in {"New", "GetItem", "CtorLike", "Like", "LikeShallow", "CopyShallow", "DeepCopy", "BinOp", "Neg", "Drop", "RShiftKeep", "LShiftKeep", "Invert"}
+Creates(l) == l.act \in {"New", "GetItem", "CtorLike", "NewLike", "Like", "LikeShallow", "CopyShallow", "DeepCopy", "BinOp", "Neg", "Drop", "RShiftKeep", "LShiftKeep", "Invert"}
 \* (SetItemFxp is a write: flags sticky, callbacks exact)
 Sticky == [][ \A p \in Obj : (/\ st.objs[p] # NULL /\ st'.objs[p] # NULL
                                /\ ~(Creates(last') /\ Target(last') = p)           \* p is the same object before and after
@@ -309,7 +316,7 @@ FlagIff == [][ last'.act \in {"Store", "SetItem"} =>
 \* C04: results of arithmetic carry the inaccuracy flag whenever an operand carried it
 InaccPropagates == [][ last'.act \in {"BinOp", "BinOpOut"} => ((st.objs[last'.x].st.i \/ st.objs[last'.y].st.i) => st'.objs[last'.z].st.i) ]_vars
 \* C10/C20: deriving never changes the source
-SourceUnchanged == [][ last'.act \in {"CtorLike", "Like", "DeepCopy", "GetItem", "BinOp", "Neg", "RShiftKeep", "LShiftKeep", "Invert"} =>
+SourceUnchanged == [][ last'.act \in {"CtorLike", "NewLike", "Like", "DeepCopy", "GetItem", "BinOp", "Neg", "RShiftKeep", "LShiftKeep", "Invert"} =>
                          \A p \in Obj \ {Target(last')} : st'.objs[p] = st.objs[p] ]_vars
 \* export of behaviours for the replay harness: TLC evaluates invariants on every generated state, before duplicate
 \* detection, so this prints one behaviour per TRANSITION of the bounded model (a complete transition cover)
